@@ -473,6 +473,11 @@ func (it *Interp) reflCall(fv, argv Value, callSlice bool) Value {
 	if f.Ref == nil {
 		it.goPanicValue(mkStrIface(it, "reflect: call of nil function"))
 	}
+	switch f.Ref.(type) {
+	case *ssa.Function, *Closure:
+	default:
+		it.unsupported("reflect.Value.Call of a function value the engine cannot run")
+	}
 	if sig.Variadic() && !callSlice {
 		it.unsupported("reflect.Value.Call of a variadic function")
 	}
